@@ -247,6 +247,11 @@ impl Run {
         progress();
     }
 
+    /// the instant at which the time budget of this process ends (None: unlimited)
+    pub fn deadline(&self) -> Option<Instant> {
+        self.budget.map(|b| self.start + b)
+    }
+
     pub fn out_of_time(&mut self) -> bool {
         if let Some(b) = self.budget {
             if self.start.elapsed() > b {
